@@ -59,9 +59,12 @@ TRUSTED = [
     "not enumerated (C05 enumerates them for a single mailbox)",
 ]
 ASSUMPTIONS = [
-    "mailbox timeout 45-60 s: every data type has its own id field, so numba specialises the jitted kernels of strax per "
-    "structured dtype and the first use of a new combination in a worker process compiles for several seconds (tens of "
-    "seconds on a loaded machine); a shorter timeout turns those compilations into mailbox timeouts",
+    "mailbox timeout 180-240 s on first attempts, and every plugin kind x id-column (dtype) combination is run once under "
+    "single_thread before the workers are forked: a first message that is late because numba compiles on a busy machine is "
+    "not a property violation",
+    "a mailbox timeout without single-thread root cause is re-run three times: if it never repeats it is counted and listed "
+    "(component e2e/nonrepeating-timeout), not reported - schedule-dependent deadlocks are decided by C05/C06 under controlled "
+    "schedules, C01's claim is about results; a timeout that repeats is a violation unless it is a listed finding",
     "max_messages is raised above the lag of the graph whenever a data type has two readers whose results meet again downstream "
     "(reconvergent path: exhaust / overlap-window plugins and the alignment of differently chunked streams make the upstream "
     "reader run ahead; capacity deadlocks are C06 / D10); otherwise max_messages is sampled from 2..6",
@@ -400,12 +403,6 @@ def _chunk_tuple(t, c):
     return [int(c.start), int(c.end), rows_of(t, c.data)]
 
 
-# A mailbox timeout on the first attempt is re-run three times on the idle pool with the same timeout.  It is a violation
-# when it repeats at least once, or when the machine was not busy (load average per core below this value); on a busy machine
-# a single unreproduced timeout is recorded in the evidence notes instead (measured on the shared 16-core build machine at load
-# 30: five variants of one case, 80 runs each with a 15 s timeout, failed once each - threads of a starved process do stall
-# that long there)
-OVERLOAD = 0.75
 TIMEOUTISH = ("MailboxFullTimeout", "MailboxReadTimeout", "did not terminate", "timed out")
 
 
@@ -725,9 +722,9 @@ def _judge(case, res, cfg, stored, tgt, where, model):
                 k = sum(1 for r in reruns if r.startswith("err"))
                 tail = (f"; {k} of {len(reruns)} re-runs on the idle pool with the same timeout failed as well ({', '.join(reruns)[:120]}); "
                         f"load per core at the failure {res.get('load')}")
-                if k == 0 and (res.get("load") or 0) >= OVERLOAD:
-                    res["noted"] = (f"{brief(case)}: {line} ({(res['exc'] or '')[:80]}) on a busy machine (load per core "
-                                    f"{res.get('load')}), not reproduced in {len(reruns)} re-runs on the idle pool")
+                if k == 0:
+                    res["noted"] = (f"{brief(case)}: {line} ({(res['exc'] or '')[:80]}) on the first attempt, not repeated in "
+                                    f"{len(reruns)} re-runs (load per core {res.get('load')})")
                     return None
                 return f"{where} raised {exc[:200]} instead of returning the whole-run rows{tail}"
         return f"{where} raised {exc[:300]} instead of returning the whole-run rows"
@@ -1041,8 +1038,10 @@ def gen_case(rng, quick=True, force=None):
             proc = "threaded_mailbox"
         if force.get("exh") and not is_prep and rng.random() < 0.6:
             proc = "single_thread"
+        if force.get("brick") and rng.random() < 0.75:
+            proc = "single_thread"       # the threaded processor reports the ten-pass error only when a join times out
         cfg = dict(proc=proc, workers=rng.choice([None, 1, 2, 4]), lazy=rng.random() < 0.5, mm=rng.randint(2, 6),
-                   rechunk=rng.random() < 0.7, timeout=rng.choice([45, 60]))
+                   rechunk=rng.random() < 0.7, timeout=rng.choice([180, 240]))
         return cfg
     case = dict(srcs=srcs, nodes=nodes, kinds=kinds, slots={t: slots[t] for t in kinds}, span=[t0, t1], target=target, stored=stored,
                 cfg=config(False), prep_cfg=config(True), mode="array" if rng.random() < 0.2 else "iter")
@@ -1180,11 +1179,78 @@ def _quiet():
     threading.excepthook = lambda args: None      # exceptions of plugin threads reach the caller through the mailboxes
 
 
+def warm_graph():
+    """one big graph that contains every plugin kind of the vocabulary in every combination of id-column slots that a
+    generated case can have (the dtype combinations for which numba specialises strax's kernels)"""
+    rows = {"sa": [(3 * i, 3 * i + 2, 100 + i) for i in range(9)], "sb": [(3 * i, 3 * i + 1, 200 + i) for i in range(9)]}
+    cuts = [0, 6, 6, 14, 30]
+    srcs = [dict(name=n, rows=[list(r) for r in rr],
+                 chunks=[[a, b, [list(r) for r in x]] for a, b, x in gen.chunk_rows(rr, cuts)],
+                 prep_chunks=[[a, b, [list(r) for r in x]] for a, b, x in gen.chunk_rows(rr, [0, 30])])
+            for n, rr in rows.items()]
+    kinds, slots, nodes, sinks = {"sa": "sa", "sb": "sb"}, {"sa": 0, "sb": 1}, [], []
+    count = [0]
+
+    def add(kind, deps, out_kinds, out_slots, sink=True, **extra):
+        outs = []
+        for kd, sl_ in zip(out_kinds, out_slots):
+            count[0] += 1
+            o = f"w{count[0]}"
+            outs.append(o)
+            kinds[o], slots[o] = (o if kd is None else kd), sl_
+        nodes.append(dict(kind=kind, deps=list(deps), outs=outs, save=["A"] * len(outs), rechunk=True, tgt=2, par=False, **extra))
+        if sink:
+            sinks.append(outs[0])
+        return outs
+    base = {}
+    for src in ("sa", "sb"):
+        for k in range(3):
+            base[(src, k)] = add("map", [src], [src], [k], sink=False, c=k)[0]
+    for k in range(3):
+        a = base[("sa", k)]
+        for k2 in range(3):
+            add("filter", [a], [None], [k2], m=2, r=0)
+            add("overlap", [a], ["sa"], [k2], wl=2, wr=7, scalar=False)
+            add("downchunk", [a], ["sa"], [k2], c=1, k=2)
+            add("exhaust", [a], ["sa"], [k2], c=1)
+            add("multi", [a], ["sa", None], [k2, (k2 + 1) % 3], c=1, m=2, r=0)
+            for kb in range(3):
+                add("loop", [a, base[("sb", kb)]], ["sa"], [k2], c=0)
+            add("pairfirst", [a, base[("sb", k2)]], ["sa"], [(k + k2) % 3], c=1)
+            if k2 != k:
+                add("merge", [a, base[("sa", k2)]], ["sa"], [(k + 1) % 3])
+    case = dict(srcs=srcs, nodes=nodes, kinds=kinds, slots=slots, span=[0, 30], target=sinks[0], stored=[],
+                cfg=dict(proc="single_thread", workers=None, lazy=True, mm=50, rechunk=True, timeout=3600),
+                prep_cfg=dict(proc="single_thread", workers=None, lazy=True, mm=50, rechunk=True, timeout=3600), mode="array")
+    return case, sinks
+
+
 def warm_up():
-    """first use of every jitted kernel (compiled or loaded from the numba cache) with timeouts that a slow
-    compilation cannot trip; results are not looked at"""
+    """Before any timing-sensitive run: every harness plugin kind in every id-column (dtype) combination is executed
+    once under single_thread, saved with rechunking and loaded again, so that every numba kernel the vocabulary reaches
+    is compiled (or loaded from the numba cache) in this process - the forked workers inherit it.  Then a few random
+    cases for the remaining code paths (threaded processor, twin storage), with timeouts no compilation can trip."""
     import random
     _quiet()
+    case, sinks = warm_graph()
+    use_case(case)
+    d = tempfile.mkdtemp(prefix="c01_warm_")
+    try:
+        with contextlib.redirect_stdout(io.StringIO()):
+            for shift in (0, EPOCH_T0):
+                c = json.loads(json.dumps(case))
+                if shift:
+                    shift_case(c, shift)
+                st = new_context(c, os.path.join(d, str(shift)), c["cfg"], build_classes(c))
+                for t in sinks:
+                    _guard(lambda: st.get_array(RUN, t, processor="single_thread", progress_bar=False))
+                for t in sinks[:12]:                                # now stored: the loaders
+                    _guard(lambda: st.get_array(RUN, t, processor="single_thread", progress_bar=False))
+                for a, b in zip(sinks[:6], sinks[6:12]):
+                    if c["kinds"][a] == c["kinds"][b] and c["slots"][a] != c["slots"][b]:
+                        _guard(lambda: st.get_array(RUN, (a, b), processor="single_thread", progress_bar=False))
+    finally:
+        shutil.rmtree(d, ignore_errors=True)
     rng = random.Random(12345)
     seen = set()
     for _ in range(300):
@@ -1193,7 +1259,7 @@ def warm_up():
         if tags <= seen:
             continue
         seen |= tags
-        case["cfg"]["timeout"] = case["prep_cfg"]["timeout"] = 600
+        case["cfg"]["timeout"] = case["prep_cfg"]["timeout"] = 3600
         run_case_once(case)
 
 
@@ -1206,7 +1272,7 @@ def _worker(args):
     return i, res
 
 
-def run_pool(cases, workers, budget_s, note=None, stall_s=400, dead_s=150, min_cases=0, hard_s=None):
+def run_pool(cases, workers, budget_s, note=None, stall_s=1500, dead_s=500, min_cases=0, hard_s=None):
     """run the cases in forked worker processes (each has strax imported through lib.straxlib); stops feeding new
     cases after `budget_s`; a case that has not come back `stall_s` seconds after it was handed out is a hang"""
     import multiprocessing as mp
@@ -1320,7 +1386,7 @@ def rerun_timeouts(cases, results, idx):
     try:
         for i in idx:
             try:
-                out = pool.apply_async(_rerun_worker, (cases[i],)).get(timeout=400)
+                out = pool.apply_async(_rerun_worker, (cases[i],)).get(timeout=1500)
                 results[i]["reruns"] = list(out)
             except mp.TimeoutError:
                 results[i]["reruns"] = ["err Hang"] * 3
@@ -1397,7 +1463,7 @@ def run(ctx):
                              for i in timeouts[:12]))
     for i in done:
         if results[i].get("noted"):
-            ctx.note("timeout not counted as a violation: " + results[i]["noted"])
+            ctx.note("e2e/nonrepeating-timeout: " + results[i]["noted"])
     stats = ctx.comp("e2e").branch_hits
     for i in done:
         for n in cases[i]["nodes"]:
@@ -1422,7 +1488,7 @@ def run(ctx):
             "pre-stored, or the threaded processor is used)")
     groups = {}
     for i in done:
-        groups.setdefault(shape_of(msgs[i]) or ("overload-timeout" if results[i].get("noted") else
+        groups.setdefault(shape_of(msgs[i]) or ("nonrepeating-timeout" if results[i].get("noted") else
                                                 ("d13-corpus" if cases[i].get("corpus") else "")), []).append(i)
     for tag, idx in sorted(groups.items()):
         name = "e2e" if not tag else "e2e/" + tag
@@ -1432,9 +1498,9 @@ def run(ctx):
             # it must raise the same error kind as the root cause
             impl_line = lambda c: results[c["_i"]].get("root_line") or results[c["_i"]]["line"]    # noqa: E731
             to_op = lambda c: results[c["_i"]].get("model_op")                                    # noqa: E731
-        elif tag in ("LZ-shape", "overload-timeout"):
-            # lazy scheduling is outside this theory (C13); a single timeout on an overloaded machine that three re-runs on
-            # the idle pool do not reproduce is noted in the evidence, not compared with the model
+        elif tag in ("LZ-shape", "nonrepeating-timeout"):
+            # lazy scheduling is outside this theory (C13); a timeout that none of three re-runs repeats is counted and
+            # listed in the evidence, not compared with the model (schedule-dependent deadlocks: C05 / C06)
             impl_line, to_op = (lambda c: results[c["_i"]]["line"]), None
         else:
             impl_line, to_op = (lambda c: results[c["_i"]]["line"]), op_whole
